@@ -42,6 +42,15 @@ func corpusProgram() *schemagen.Program {
 		fld(1, "ks", "default", lst(ref("a.K"))),
 		fld(2, "d", "optional", ty("double")),
 	}}
+	u := &schemagen.Struct{File: "a", Name: "U", Kind: "union", Fields: []*schemagen.Field{
+		fld(1, "a", "optional", ty("i32")),
+		fld(2, "b", "optional", ty("string")),
+		fld(3, "k", "optional", ref("a.K")),
+	}}
+	x := &schemagen.Struct{File: "a", Name: "X", Kind: "exception", Fields: []*schemagen.Field{
+		fld(1, "msg", "default", ty("string")),
+		fld(2, "u", "optional", ref("a.U")),
+	}}
 	m := &schemagen.Struct{File: "a", Name: "M", Kind: "struct", Fields: []*schemagen.Field{
 		fld(1, "m1", "default", mp(ty("i32"), ty("string"))),
 		fld(2, "m2", "default", mp(ty("string"), ty("i32"))),
@@ -58,10 +67,13 @@ func corpusProgram() *schemagen.Program {
 		fld(13, "md", "default", mp(ty("double"), ty("bool"))),
 		fld(14, "sm", "default", set(mp(ty("i32"), ty("string")))),
 		fld(15, "sl", "default", set(lst(ty("i32")))),
+		fld(16, "u", "optional", ref("a.U")),
+		fld(17, "lu", "default", lst(ref("a.U"))),
+		fld(18, "ex", "optional", ref("a.X")),
 	}}
 	return &schemagen.Program{Key: corpusKey, Files: []*schemagen.File{{
 		Name: "a", Namespace: corpusKey + ".apkg",
-		Defs: []*schemagen.Def{{Struct: k}, {Struct: v}, {Struct: m}},
+		Defs: []*schemagen.Def{{Struct: k}, {Struct: v}, {Struct: u}, {Struct: x}, {Struct: m}},
 	}}}
 }
 
@@ -102,6 +114,23 @@ func (b hb) k(x int64, s string, set bool) *valgen.HVal {
 // v: a.V{ks, d}
 func (b hb) v(ks *valgen.HVal, d *valgen.HVal) *valgen.HVal {
 	return &valgen.HVal{K: "struct", A: b.h.Fresh(), F: []valgen.HField{{ID: 1, V: ks}, {ID: 2, V: d}}}
+}
+
+// u: a.U with exactly the member which set (1: a, 2: b, 3: k); which = 0: none set
+func (b hb) u(which int, v *valgen.HVal) *valgen.HVal {
+	fs := []valgen.HField{{ID: 1, V: b.n()}, {ID: 2, V: b.n()}, {ID: 3, V: b.n()}}
+	switch which {
+	case 1, 2:
+		fs[which-1].V = b.some(v)
+	case 3:
+		fs[2].V = v
+	}
+	return &valgen.HVal{K: "struct", A: b.h.Fresh(), F: fs}
+}
+
+// x: a.X{msg, u}
+func (b hb) x(msg string, u *valgen.HVal) *valgen.HVal {
+	return &valgen.HVal{K: "struct", A: b.h.Fresh(), F: []valgen.HField{{ID: 1, V: b.s(msg)}, {ID: 2, V: u}}}
 }
 
 // mval: a.M with the given slots, every other slot the Go zero value
@@ -195,6 +224,26 @@ func corpusCases(p *schemagen.Program) []corpusVec {
 		n := b.some(b.d(nanBits))
 		add("shared-pointer-to-nan", M(ov{9: b.m(b.i(1), b.v(b.n(), n))}), M(ov{9: b.m(b.i(1), b.v(b.n(), n))}))
 	}
+	// struct-typed keys that are nil pointers, and one object referenced twice inside a value
+	add("nil-struct-key-both", M(ov{3: b.m(b.n(), b.i(1))}), M(ov{3: b.m(b.n(), b.i(1))}))
+	add("nil-struct-key-value-differs", M(ov{3: b.m(b.n(), b.i(1))}), M(ov{3: b.m(b.n(), b.i(2))}))
+	add("nil-struct-key-vs-struct-key", M(ov{3: b.m(b.n(), b.i(1))}), M(ov{3: b.m(b.k(0, "", false), b.i(1))}))
+	{
+		k := b.k(5, "w", true)
+		add("one-object-twice-vs-two-copies", M(ov{5: b.l(k, k), 8: k}), M(ov{5: b.l(b.k(5, "w", true), b.k(5, "w", true)), 8: b.k(5, "w", true)}))
+		add("one-object-twice-vs-different-second", M(ov{5: b.l(k, k)}), M(ov{5: b.l(b.k(5, "w", true), b.k(6, "w", true))}))
+	}
+	// unions and exceptions
+	add("union-same-member-equal", M(ov{16: b.u(1, b.i(1))}), M(ov{16: b.u(1, b.i(1))}))
+	add("union-same-member-differs", M(ov{16: b.u(2, b.s("p"))}), M(ov{16: b.u(2, b.s("q"))}))
+	add("union-other-member-zero-values", M(ov{16: b.u(1, b.i(0))}), M(ov{16: b.u(2, b.s(""))}))
+	add("union-none-set-vs-zero", M(ov{16: b.u(0, nil)}), M(ov{16: b.u(1, b.i(0))}))
+	add("union-unset-vs-none-set", M(ov{}), M(ov{16: b.u(0, nil)}))
+	add("union-struct-member", M(ov{17: b.l(b.u(3, b.k(1, "", false)), b.n())}), M(ov{17: b.l(b.u(3, b.k(1, "", false)), b.n())}))
+	add("union-struct-member-nil-vs-empty", M(ov{17: b.l(b.u(3, b.k(0, "", false)))}), M(ov{17: b.l(b.u(0, nil))}))
+	add("exception-equal", M(ov{18: b.x("boom", b.u(2, b.s("z")))}), M(ov{18: b.x("boom", b.u(2, b.s("z")))}))
+	add("exception-message-differs", M(ov{18: b.x("boom", b.n())}), M(ov{18: b.x("bang", b.n())}))
+	add("exception-nested-union-differs", M(ov{18: b.x("boom", b.u(2, b.s("z")))}), M(ov{18: b.x("boom", b.u(1, b.i(7)))}))
 	// nil receivers and arguments
 	add("nil-receiver", b.n(), M(ov{}))
 	add("nil-argument", M(ov{7: b.some(b.i(1))}), b.n())
